@@ -1393,6 +1393,8 @@ class Translator:
 
         if last == "copy" and d.split(".")[0] in ("np", "numpy") and isinstance(a0, np.ndarray):
             return a0.copy()
+        if last in ("reduce_sum", "sum") and isinstance(a0, (list, tuple)) and not a0 and not isinstance(a0, np.ndarray):
+            return sp.Integer(0)   # the sum over an empty list of parts
         if last in ("reduce_sum", "sum") and isinstance(a0, (list, tuple)) and a0 and all(is_sym(x) or isinstance(x, (int, float)) for x in a0) and ax(None) in (0, None):
             # a python list of per-part tensors summed over the list axis
             tot = sp.Integer(0)
